@@ -604,6 +604,14 @@ class Engine(object):
         outs = []
         hook = self.model.iterate(itval, st, node)
         known_nonempty = bool(hook and hook.get('nonempty'))
+        known_empty = False
+        if itval[0] in ('tuple', 'list') and not any(x[0] == 'star' for x in itval[1]) and hook is None:
+            return self._loop_exact(itval[1], st, target, body, orelse, node, body_fn)
+        tr = st.facts.get('truth', {}).get(itval)
+        if tr is True:
+            known_nonempty = True       # a container that tested true has at least one element
+        elif tr is False and itval[0] in ('param', 'tuple', 'list', 'dict'):
+            known_empty = True
         live = [st]
         lid = next(self.uid)
         for i in range(unroll + 1):
@@ -617,7 +625,7 @@ class Engine(object):
                     if hook and hook.get('on_exit'):
                         hook['on_exit'](ex, i)
                     outs.extend(self.exec_block(orelse, ex) if orelse else [Out(NEXT, ex)])
-                if i == unroll:
+                if i == unroll or known_empty:
                     continue
                 it = cur.fork()
                 it.loops += 1
@@ -648,6 +656,37 @@ class Engine(object):
             live = nxt
             if not live:
                 break
+        return outs
+
+    def _loop_exact(self, elems, st, target, body, orelse, node, body_fn):
+        """iterate a literal sequence: exactly its elements"""
+        outs = []
+        live = [st]
+        if not elems:
+            st.zero = st.zero + (node.lineno,)
+        for x in elems:
+            nxt = []
+            for cur in live:
+                cur.loops += 1
+                bouts = []
+                for ao in (self.assign(target, x, cur) if target is not None else [Out(NEXT, cur)]):
+                    if ao.kind != NEXT:
+                        bouts.append(ao)
+                    elif body_fn is not None:
+                        bouts.extend(body_fn(ao.st))
+                    else:
+                        bouts.extend(self.exec_block(body, ao.st))
+                for o in bouts:
+                    o.st.loops -= 1
+                    if o.kind in (NEXT, CONTINUE):
+                        nxt.append(o.st)
+                    elif o.kind == BREAK:
+                        outs.append(Out(NEXT, o.st))
+                    else:
+                        outs.append(o)
+            live = nxt
+        for cur in live:
+            outs.extend(self.exec_block(orelse, cur) if orelse else [Out(NEXT, cur)])
         return outs
 
     def st_With(self, s, st):
@@ -1149,6 +1188,15 @@ class Engine(object):
             fnode, _ = self._closures.get(f[2], (None, None))
             if fnode is not None:
                 return self.inline(fnode, f[1], None, args, kws, st, node)
+        if f[0] == 'lib' and len(args) == 1 and not kws:
+            a = args[0]
+            if f[1] == 'len' and a[0] in ('tuple', 'list') and not any(x[0] == 'star' for x in a[1]):
+                return [R(st, C(len(a[1])))]
+            if f[1] in ('bool', 'str', 'int') and is_const(a) and isinstance(a[1], (bool, int, str, type(None))):
+                try:
+                    return [R(st, C({'bool': bool, 'str': str, 'int': int}[f[1]](a[1])))]
+                except Exception:
+                    pass
         return [R(st, ('call', f, args, kws))]
 
     # ------------------------------------------------------------------ inlining
